@@ -10,6 +10,9 @@ import vlib, rtcommon
 
 
 def tagger(r):
+    # input class of finding F20 / F20b (the stream does not decode at all)
+    if r.get("e") == "RT" and r.get("gt") == "mesh" and r.get("m") == "seq" and r.get("cc") and r.get("short3") and r.get("eok") and not r.get("dok"):
+        return {"input": "compress_connectivity", "stream": "fewer_than_3_bytes_per_face", "method": "sequential"}
     if r.get("e") == "RT" and r.get("dup_points") and r.get("gt") == "mesh" and r.get("m") == "eb" and r.get("rp", 0) > r.get("dp", 0):
         return {"input": "duplicate_points", "method": "edgebreaker", "direction": "reported>decoded"}
     return None
